@@ -132,6 +132,11 @@ fn plan_inner(prop: &str, tier: &str) -> Option<Plan> {
                     jobs.push(job(prop, "seqx", f, tier, json!({"n": n, "max_edges": l, "vals": v})));
                 }
                 jobs.push(job(prop, "seqx", f, tier, json!({"long": if tier == "quick" { 24 } else { 48 }})));
+                // every history, unmerged (hidden state that survives a call)
+                let deep: Vec<(usize, usize, usize)> = if tier == "quick" { vec![(2, 5, 4), (3, 4, 8)] } else { vec![(2, 6, 16), (3, 5, 32), (4, 4, 16)] };
+                for (n, d, sh) in deep {
+                    jobs.extend(sharded(prop, "seqx", f, tier, json!({"n": n, "deep": d}), sh));
+                }
                 if prop == "C03" {
                     let (n, l) = if tier == "quick" { (2, 3) } else { (3, 3) };
                     jobs.push(job(prop, "seqx", f, tier, json!({"n": n, "max_edges": l, "vals": 1, "provenance": true})));
@@ -141,9 +146,9 @@ fn plan_inner(prop: &str, tier: &str) -> Option<Plan> {
                 jobs,
                 level: "model_checking".into(),
                 rule: match prop {
-                    "C01" => "BFS over all implementation states reachable with connect/try_connect/disconnect/isolate over all operand pairs (u==v included) within (nodes, live edges, edge values) bounds; every state is a history prefix; mirror invariant + query agreement checked on every state. evaluations = transitions executed on the real code; nontrivial = transitions that are removals, failing calls or have u==v. A second job walks five long connect-only families on 3 nodes (hub-out, hub-in, all-parallel, all-self-loops, mixed) edge by edge up to 24 (quick) / 48 (thorough) edges and applies every alphabet operation to every prefix, so list lengths past any inline-buffer or growth threshold are covered".into(),
-                    "C02" => "same exploration on the undirected flavours; symmetry invariant + query agreement on every state; plus the long connect-only families (see C01) up to 24 / 48 edges".into(),
-                    _ => "every (state, operation) transition of the explored space is executed on the real code and checked against the relational multigraph contract; a second pass repeats every transition with handles of every provenance (clone, graph.get, graph[index], edge endpoint, search result, path node); every alphabet operation is also applied, under the same contract, to every prefix of five long connect-only families on 3 nodes up to 24 (quick) / 48 (thorough) edges".into(),
+                    "C01" => "BFS over all implementation states reachable with connect/try_connect/disconnect/isolate over all operand pairs (u==v included) within (nodes, live edges, edge values) bounds; every state is a history prefix; mirror invariant + query agreement checked on every state. evaluations = transitions executed on the real code; nontrivial = transitions that are removals, failing calls or have u==v. A second job walks five long connect-only families on 3 nodes (hub-out, hub-in, all-parallel, all-self-loops, mixed) edge by edge up to 24 (quick) / 48 (thorough) edges and applies every alphabet operation to every prefix, so list lengths past any inline-buffer or growth threshold are covered. A third job family executes EVERY history of <= d operations (quick: 2 nodes d=5, 3 nodes d=4; thorough: d=6 / 5, 4 nodes d=4) on one object without merging states and checks the invariant after its last call (hidden state surviving a call)".into(),
+                    "C02" => "same exploration on the undirected flavours; symmetry invariant + query agreement on every state; plus the long connect-only families (see C01) up to 24 / 48 edges and every unmerged history of <= d operations (see C01)".into(),
+                    _ => "every (state, operation) transition of the explored space is executed on the real code and checked against the relational multigraph contract; a second pass repeats every transition with handles of every provenance (clone, graph.get, graph[index], edge endpoint, search result, path node); every alphabet operation is also applied, under the same contract, to every prefix of five long connect-only families on 3 nodes up to 24 (quick) / 48 (thorough) edges; every history of <= d operations (quick: 2 nodes d=5, 3 nodes d=4; thorough: d=6 / 5, 4 nodes d=4) is also executed on one object without merging states and its last call checked against the contract (hidden state surviving a call)".into(),
                 },
                 bounds: json!({"(nodes, live_edges, edge_values)": seq_bounds(tier)}),
                 exhaustive: true,
@@ -257,14 +262,19 @@ fn plan_inner(prop: &str, tier: &str) -> Option<Plan> {
                     jobs.extend(sharded(prop, "csweep", f, tier, json!({"n": n, "max_l": l}), *sh));
                 }
                 jobs.extend(sharded(prop, "csweep", f, tier, json!({"n": 0, "max_l": 0, "large": if tier == "quick" { 20 } else { 40 }}), 8));
+                // the same container used again after edges changed through the node handles
+                let mb: Vec<(usize, usize, usize)> = if tier == "quick" { vec![(2, 3, 1), (3, 3, 8)] } else { vec![(2, 4, 2), (3, 4, 16), (4, 3, 16)] };
+                for (n, l, sh) in mb {
+                    jobs.extend(sharded(prop, "csweep", f, tier, json!({"n": n, "max_l": l, "mutate": true}), sh));
+                }
             }
             Some(Plan {
                 jobs,
                 level: "exploration".into(),
                 rule: if prop == "C11" {
-                    "every canonical directed adjacency shape with all nodes members x two insertion orders x every container iteration order (first hash seed producing each of the n! orders, via the seed hook): scc() must be a partition of the members equal to the reference mutual-reachability classes; plus the large structured families (chains, cycles with chords, fan-out / fan-in with one extra edge at every position, 2..20 nodes quick / 2..40 thorough, three hash seeds). nontrivial = cases with >= 2 edges".into()
+                    "every canonical directed adjacency shape with all nodes members x two insertion orders x every container iteration order (first hash seed producing each of the n! orders, via the seed hook): scc() must be a partition of the members equal to the reference mutual-reachability classes; plus the large structured families (chains, cycles with chords, fan-out / fan-in with one extra edge at every position, 2..20 nodes quick / 2..40 thorough, three hash seeds). Reuse: scc() is called twice on every container, and (jobs with mutate) once more after every single connect / disconnect / isolate and every move of one edge applied through the node handles, against the components of the graph as it then is. nontrivial = cases with >= 2 edges".into()
                 } else {
-                    "every canonical adjacency shape of each container type x two insertion orders x every container iteration order x {JSON, CBOR}: serialise with the real code, deserialise into a graph with a different hash seed, compare keys, node values, per-node outgoing edge lists (directed: order too; undirected: multiset) and the mirror/symmetry invariant of the result; plus the large structured families (2..20 nodes quick / 2..40 thorough, three hash seeds, JSON and CBOR). nontrivial = cases with >= 1 edge".into()
+                    "every canonical adjacency shape of each container type x two insertion orders x every container iteration order x {JSON, CBOR}: serialise with the real code, deserialise into a graph with a different hash seed, compare keys, node values, per-node outgoing edge lists (directed: order too; undirected: multiset) and the mirror/symmetry invariant of the result; plus the large structured families (2..20 nodes quick / 2..40 thorough, three hash seeds, JSON and CBOR). Reuse: every container is serialised twice, and (jobs with mutate) once more after every single connect / disconnect / isolate and every move of one edge applied through the node handles. nontrivial = cases with >= 1 edge".into()
                 },
                 bounds: json!({"(nodes, max_edges, shards)": bounds}),
                 exhaustive: true,
